@@ -14,6 +14,7 @@ FILES = [
     "lerax/algorithm/off_policy.py", "lerax/algorithm/base_algorithm.py", "lerax/policy/actor_critic/mlp.py", "lerax/utils.py", "lerax/callback/logging/callback.py", "lerax/benchmark/__init__.py",
     "lerax/wrapper/transform_action.py", "lerax/wrapper/transform_observation.py", "lerax/wrapper/transform_reward.py", "lerax/wrapper/misc.py",
     "lerax/wrapper/utils.py", "lerax/wrapper/base_wrapper.py", "lerax/compatibility/gym.py", "lerax/compatibility/gymnax.py", "lerax/env/base_env.py",
+    "lerax/space/box.py", "lerax/space/discrete.py", "lerax/space/multi_binary.py", "lerax/space/multi_discrete.py", "lerax/space/dict.py", "lerax/space/tuple.py",
 ]
 PROPS_OF = {
     "lerax/buffer/rollout.py": ["C03", "C09"], "lerax/buffer/replay.py": ["C06"], "lerax/buffer/base_buffer.py": ["C09", "C06"],
@@ -24,6 +25,8 @@ PROPS_OF = {
     "lerax/wrapper/transform_action.py": ["C13"], "lerax/wrapper/transform_observation.py": ["C13"], "lerax/wrapper/transform_reward.py": ["C13"],
     "lerax/wrapper/misc.py": ["C13", "C01"], "lerax/wrapper/utils.py": ["C13"], "lerax/wrapper/base_wrapper.py": ["C13"],
     "lerax/compatibility/gym.py": ["C13", "C14", "C01"], "lerax/compatibility/gymnax.py": ["C13"], "lerax/env/base_env.py": ["C01", "C13"],
+    "lerax/space/box.py": ["C14"], "lerax/space/discrete.py": ["C14"], "lerax/space/multi_binary.py": ["C14"], "lerax/space/multi_discrete.py": ["C14"],
+    "lerax/space/dict.py": ["C14"], "lerax/space/tuple.py": ["C14"],
 }
 
 
